@@ -254,4 +254,65 @@ theorem run_facts {V : Type} [DecidableEq V] (valid : Config → Bool) (ver : Co
       · rw [h]; exact r5
       · exact i6 y h
 
+
+/-! ### the API handler -/
+
+/-- what one API request does to a coherent Gate -/
+inductive ApiOutcome {V : Type} (valid : Config → Bool) (ver : Config → V) (a : ApiState) (req : ApiReq V) :
+    ApiState → ApiResp V → Prop where
+  | noVersion : req.ifMatch = none → ApiOutcome valid ver a req a ⟨.invalidArgument, none⟩
+  | undecodable : req.cand = none → ApiOutcome valid ver a req a ⟨.invalidArgument, none⟩
+  | invalid (c : Config) : req.cand = some c → valid c = false → ApiOutcome valid ver a req a ⟨.invalidArgument, none⟩
+  | stale (e : V) (c : Config) : req.ifMatch = some e → req.cand = some c → valid c = true → ver a.gate.cur ≠ e →
+      ApiOutcome valid ver a req a ⟨.failedPrecondition, none⟩
+  | unsupported (e : V) (c : Config) : req.ifMatch = some e → req.cand = some c → valid c = true →
+      ver a.gate.cur = e → c ≠ a.gate.cur → ¬ RouteOnlyChange a.gate.cur c →
+      ApiOutcome valid ver a req a ⟨.failedPrecondition, none⟩
+  | same (e : V) : req.ifMatch = some e → req.cand = some a.gate.cur → valid a.gate.cur = true → ver a.gate.cur = e →
+      ApiOutcome valid ver a req ⟨a.gate, if req.persist then some a.gate.cur else a.file⟩
+        ⟨.ok, some (ver a.gate.cur)⟩
+  | applied (e : V) (c : Config) : req.ifMatch = some e → req.cand = some c → valid c = true →
+      ver a.gate.cur = e → RouteOnlyChange a.gate.cur c →
+      ApiOutcome valid ver a req ⟨⟨c, ⟨c, a.gate.proxy.gen + 1⟩⟩, if req.persist then some c else a.file⟩
+        ⟨.ok, some (ver c)⟩
+
+theorem apiApply_outcome {V : Type} [DecidableEq V] (valid : Config → Bool) (ver : Config → V)
+    (a : ApiState) (hc : Coherent a.gate) (req : ApiReq V) :
+    ApiOutcome valid ver a req (apiApply valid ver a req).1 (apiApply valid ver a req).2 ∧
+      Coherent (apiApply valid ver a req).1.gate := by
+  unfold apiApply
+  cases hm : req.ifMatch with
+  | none => exact ⟨ApiOutcome.noVersion hm, hc⟩
+  | some e =>
+    cases hcand : req.cand with
+    | none => exact ⟨ApiOutcome.undecodable hcand, hc⟩
+    | some c =>
+      cases hv : valid c with
+      | false =>
+        simp only [hv, Bool.not_false, if_true]
+        exact ⟨ApiOutcome.invalid c hcand hv, hc⟩
+      | true =>
+        simp only [hv, Bool.not_true, Bool.false_eq_true, if_false]
+        have hstep : applyIfVersion valid ver a.gate (some c) e = step valid ver a.gate ⟨some c, some e⟩ := rfl
+        obtain ⟨ho, hc1⟩ := step_outcome valid ver a.gate hc ⟨some c, some e⟩
+        rw [hstep]
+        generalize step valid ver a.gate ⟨some c, some e⟩ = st at ho hc1
+        obtain ⟨s1, x⟩ := st
+        simp only at ho hc1 ⊢
+        cases ho with
+        | stale e' h1 h2 =>
+          cases h1
+          exact ⟨ApiOutcome.stale e c hm hcand hv h2, hc⟩
+        | nil h1 h2 => cases h2
+        | same h1 h2 =>
+          cases h2
+          exact ⟨ApiOutcome.same e hm hcand hv (h1 e rfl), hc⟩
+        | invalid c' h1 h2 h3 h4 => cases h2; rw [hv] at h4; cases h4
+        | applied c' h1 h2 h3 h4 =>
+          cases h2
+          exact ⟨ApiOutcome.applied e c hm hcand hv (h1 e rfl) h4, rfl⟩
+        | unsupported c' h1 h2 h3 h4 h5 =>
+          cases h2
+          exact ⟨ApiOutcome.unsupported e c hm hcand hv (h1 e rfl) h3 h5, hc⟩
+
 end Gate.C35
